@@ -10,15 +10,19 @@ import (
 	"encoding/binary"
 	"fmt"
 	"io"
+	"net"
 	"net/http"
+	"runtime"
 	"sync"
 	"time"
 
 	"verifharness/hx"
 
 	"github.com/IrineSistiana/mosdns/v5/pkg/pool"
+	"github.com/IrineSistiana/mosdns/v5/pkg/upstream"
 	"github.com/IrineSistiana/mosdns/v5/pkg/upstream/doh"
 	"github.com/IrineSistiana/mosdns/v5/pkg/upstream/transport"
+	"github.com/miekg/dns"
 	"github.com/quic-go/quic-go"
 )
 
@@ -352,6 +356,109 @@ func Drive(w *hx.Writer, o *hx.Opts, wrap func(string) string) {
 			desc = map[string]any{"error": err.Error()}
 		}
 		w.Emit("id", hx.Case{ID: id, Coq: wrap(lit), Desc: desc})
+	}
+}
+
+// ---------- replies stay the caller's ----------
+
+// Held runs a sequence of exchanges on one real udp upstream (with its TCP fallback) against a UDP server that
+// answers the first query truncated (nothing listens on TCP) and the others normally; successful replies are
+// kept by the caller and read again at the end.
+func Held(nq int, ids []uint16) (string, map[string]any, bool) {
+	pc, err := net.ListenPacket("udp", "127.0.0.1:0")
+	if err != nil {
+		return "", nil, false
+	}
+	defer pc.Close()
+	go func() {
+		b := make([]byte, 4096)
+		first := true
+		for {
+			n, from, err := pc.ReadFrom(b)
+			if err != nil {
+				return
+			}
+			m := new(dns.Msg)
+			if m.Unpack(b[:n]) != nil {
+				continue
+			}
+			r := new(dns.Msg)
+			r.SetReply(m)
+			if first {
+				r.Truncated = true
+				first = false
+			}
+			out, _ := r.Pack()
+			pc.WriteTo(out, from)
+		}
+	}()
+	prev := runtime.GOMAXPROCS(1) // one P: what goes back to the buffer pool is what comes out next
+	defer runtime.GOMAXPROCS(prev)
+	u, err := upstream.NewUpstream("udp://"+pc.LocalAddr().String(), upstream.Opt{})
+	if err != nil {
+		return "", nil, false
+	}
+	defer u.Close()
+	type held struct {
+		r       *[]byte
+		rn, rid int
+		ok      bool
+	}
+	nameIdx := func(b []byte) (int, int) {
+		m := new(dns.Msg)
+		if m.Unpack(b) != nil || len(m.Question) != 1 {
+			return 9999, 0
+		}
+		k := 9998
+		fmt.Sscanf(m.Question[0].Name, "h%d.", &k)
+		return k, int(m.Id)
+	}
+	hs := make([]held, nq)
+	for i := 0; i < nq; i++ {
+		q := new(dns.Msg)
+		q.SetQuestion(fmt.Sprintf("h%d.", i+1), dns.TypeA)
+		q.Id = ids[i%len(ids)]
+		qb, _ := q.Pack()
+		ctx, cancel := context.WithTimeout(context.Background(), 3*time.Second)
+		r, err := u.ExchangeContext(ctx, qb)
+		cancel()
+		if err == nil && r != nil {
+			hs[i].ok, hs[i].r = true, r
+			hs[i].rn, hs[i].rid = nameIdx(*r)
+		}
+	}
+	items := make([]string, nq)
+	for i := range hs {
+		ln, lid := 0, 0
+		if hs[i].ok {
+			ln, lid = nameIdx(*hs[i].r)
+		}
+		items[i] = hx.Tuple(hx.Ni(i+1), hx.Ni(int(ids[i%len(ids)])), hx.Bool(hs[i].ok), hx.Ni(hs[i].rn), hx.Ni(hs[i].rid), hx.Ni(ln), hx.Ni(lid))
+	}
+	for i := range hs {
+		if hs[i].ok {
+			pool.ReleaseBuf(hs[i].r)
+		}
+	}
+	return hx.App("CHeld", hx.List(items)), map[string]any{"queries": nq}, true
+}
+
+// DriveHeld emits the held-reply sequences.
+func DriveHeld(w *hx.Writer, o *hx.Opts, wrap func(string) string) {
+	n := o.Count(6, 60)
+	for i := 0; i < n; i++ {
+		id := fmt.Sprintf("held:%d", i)
+		if !o.Want(id) {
+			continue
+		}
+		r := hx.NewRNG(o.Seed, id)
+		ids := []uint16{0x1111, 0x2001, uint16(r.Intn(65536)), 0, 0xFFFF, uint16(r.Intn(65536))}
+		lit, desc, ok := Held(r.Range(4, 12), ids)
+		if !ok {
+			w.Tally("held-skipped", 1)
+			continue
+		}
+		w.Emit("held", hx.Case{ID: id, Coq: wrap(lit), Desc: desc})
 	}
 }
 
